@@ -93,6 +93,15 @@ class FixedAdapter:
         return None
 
 
+class KeyboardOutAdapter(FixedAdapter):
+    """the OUTPUT side of the keyboard device (it collects written bits like the other devices); no key events"""
+    name = 'KeyboardIO(output)'
+
+    def __init__(self, data):
+        from flipjump.interpreter.io_devices.KeyboardIO import KeyboardIO, ScriptedKeyEventSource
+        self.dev = KeyboardIO(ScriptedKeyEventSource([]))
+
+
 class StandardAdapter:
     """StandardIO binds sys.stdin/stdout at import: the module attributes are replaced."""
     name = 'StandardIO'
@@ -360,7 +369,7 @@ def work(task):
         return {'states': states, 'transitions': transitions, 'outcomes': sorted(outcomes)}, sieve.result()
     if kind == 'bits':
         _, dev, maxlen = task
-        fac = FixedAdapter if dev == 'fixed' else (lambda d: StandardAdapter(d, True))
+        fac = FixedAdapter if dev == 'fixed' else KeyboardOutAdapter if dev == 'kbd' else (lambda d: StandardAdapter(d, True))
         n, bad = straight_bits(fac, maxlen)
         for b in bad:
             sieve.add(record(b))
@@ -444,6 +453,7 @@ def make_tasks(tier):
     tasks.append(('bfs', 'quiet', (0x41,), 5))
     tasks.append(('bits', 'fixed', 16))
     tasks.append(('bits', 'std', 12))
+    tasks.append(('bits', 'kbd', 12))
     for first in TEXT_ALPHABET:
         tasks.append(('texts', 'std', first, 6 if tier != 'thorough' else 7))
     tasks.append(('texts', 'fixed', 0x5C, 6))
